@@ -38,6 +38,48 @@ def occurrences(buf, pat):
     return out
 
 
+def has_u32(e):
+    if isinstance(e, list): return any(has_u32(x) for x in e)
+    if not isinstance(e, dict): return False
+    if e.get("t") == "uint" and e.get("n") == 4 and not e.get("signed"): return True
+    return any(has_u32(v) for v in e.values() if isinstance(v, (dict, list)))
+
+
+def static_safe(e):
+    """TLC's integers are 32-bit: a `static` record is produced only for conditions whose constant sub-expressions stay far inside
+    that range (not an oracle: it only keeps Cond!CTV computable; conditions with larger constants are still judged on verdicts)"""
+    ok = [True]
+    def ct(x):
+        if isinstance(x, list):
+            for y in x: ct(y)
+            return None
+        if not isinstance(x, dict): return None
+        t = x.get("t")
+        if t == "int":
+            if abs(x["v"]) >= 1 << 30: ok[0] = False
+            return x["v"]
+        if t == "paren": return ct(x["x"])
+        if t in ("neg", "bnot"):
+            v = ct(x["x"]); return None if v is None else (-v if t == "neg" else ~v)
+        if t == "bin":
+            l, r_ = ct(x["l"]), ct(x["r"])
+            if x["op"] in ("<<", ">>") and r_ is not None and r_ >= 64: return 0
+            if l is None or r_ is None: return None
+            try:
+                if x["op"] in ("<<", ">>") and not (0 <= r_ < 64): return None
+                v = {"+": l + r_, "-": l - r_, "*": l * r_, "&": l & r_, "|": l | r_, "^": l ^ r_, "<<": l << max(0, min(r_, 63)), ">>": l >> max(0, min(r_, 63))}.get(x["op"])
+            except Exception:
+                v = None
+            if x["op"] in ("\\", "%"): v = 0 if r_ == 0 else l      # magnitude only
+            if v is None or abs(v) >= 1 << 30 or abs(l) >= 1 << 30 or abs(r_) >= 1 << 30: ok[0] = False
+            return v
+        for k, y in x.items():
+            if isinstance(y, (dict, list)): ct(y)
+        return None
+    ct(e)
+    return ok[0]
+
+
 def make_records(res, prop, groups, metas, wd, name, variant="asan"):
     records, owners = [], []
     rejected = 0
@@ -53,7 +95,7 @@ def make_records(res, prop, groups, metas, wd, name, variant="asan"):
             if g is not None and g["compile"] is not None:
                 # the compiler's decision as far as the static range checks go (Cond!StaticRangeReject): judged for every condition
                 dtxt = json.dumps(g["compile"].get("diag", ""))
-                if g["ok"] or "range lower bound" in dtxt:
+                if (g["ok"] or "range lower bound" in dtxt) and static_safe(ast):
                     records.append({"kind": "static", "ast": cg.strip_for_tla(ast), "rejected": not g["ok"]})
                     owners.append((text, "", "rejected by the compiler: " + dtxt[:200] if not g["ok"] else "accepted by the compiler", {}))
             if g is None or not g["ok"]:
@@ -79,6 +121,10 @@ def make_records(res, prop, groups, metas, wd, name, variant="asan"):
                     if extra:
                         rp = yv.save_replay(prop, "invented_%d_%d" % (ci + gi, bi), {"cond": text, "buf": b.hex(), "string": k, "reported": reported[k], "occurrences": m[k]})
                         res.violation("the scan reported matches of %s that are not occurrences of it: %s (condition %s)" % (k, extra[:4], text[:120]), rp)
+                if has_u32(ast) and any(x >= 0x80 for x in b):
+                    # an unsigned 32-bit read of a byte with the top bit set leaves TLC's 32-bit integers: the pair is not judged
+                    res.cov["parts"]["not_judged_u32_of_high_bytes"] = res.cov["parts"].get("not_judged_u32_of_high_bytes", 0) + 1
+                    continue
                 env = {"buf": list(b), "filesize": len(b), "entrypoint": -1, "m": m, "ext": metas[ci + gi][2] if len(metas[ci + gi]) > 2 else EXT_ENV,
                        "rules": {"r_true": True, "r_false": False, "r_true2": True}}
                 records.append({"kind": "cond", "ast": cg.strip_for_tla(ast), "env": env, "obs": sc["t"]["verdict"]})
